@@ -6,6 +6,7 @@ rules would otherwise have to recognise one by one (and that a behaviour-preserv
   N1  if not (C): A  else: B          ->  if C: B  else: A            (also for elif chains)
   N2  tmp = E ; return tmp            ->  return E                     (tmp assigned once, used only by that return)
   N3  K <op> x  with a constant K     ->  x <mirrored op> K            (==, !=, <, <=, >, >=; single comparison)
+  N5  if not C: raise X ; rest        ->  if C: rest ; raise X         (rest returns/raises on every path)
 
 Line numbers of the surviving nodes are kept, so reports still point at the right source lines.
 """
@@ -74,11 +75,54 @@ class Canon(ast.NodeTransformer):
                 b[i:i + 2] = [new]
 
 
+def always_exits(stmts):
+    """every path through the statement list ends in return/raise"""
+    if not stmts:
+        return False
+    last = stmts[-1]
+    if isinstance(last, (ast.Return, ast.Raise)):
+        return True
+    if isinstance(last, ast.If):
+        return bool(last.orelse) and always_exits(last.body) and always_exits(last.orelse)
+    return False
+
+
+def unfold_guards(func):
+    """N5  `if not C: raise X` ; rest   ->   `if C: rest` ; `raise X`      (rest exits on every path)
+    The repository writes its type/format guards in the second form; the first one is the usual early-exit spelling."""
+    changed = True
+    while changed:
+        changed = False
+        for node in ast.walk(func):
+            for fld in ("body", "orelse"):
+                b = getattr(node, fld, None)
+                if not (isinstance(b, list) and b and isinstance(b[0], ast.stmt)):
+                    continue
+                for i, st in enumerate(b[:-1]):
+                    if isinstance(st, ast.If) and not st.orelse and len(st.body) == 1 and isinstance(st.body[0], ast.Raise) \
+                            and isinstance(st.test, ast.UnaryOp) and isinstance(st.test.op, ast.Not):
+                        rest = b[i + 1:]
+                        if not always_exits(rest) or any(isinstance(x, (ast.FunctionDef, ast.ClassDef)) for x in rest):
+                            continue
+                        new_if = ast.If(test=st.test.operand, body=rest, orelse=[])
+                        ast.copy_location(new_if, st)
+                        new_if.end_lineno = getattr(rest[-1], "end_lineno", None)
+                        new_if.end_col_offset = getattr(rest[-1], "end_col_offset", None)
+                        b[i:] = [new_if, st.body[0]]
+                        changed = True
+                        break
+                if changed:
+                    break
+            if changed:
+                break
+
+
 def canonicalise(tree):
     c = Canon()
     tree = c.visit(tree)
     for f in ast.walk(tree):
         if isinstance(f, (ast.FunctionDef, ast.AsyncFunctionDef)):
             c.fold_returns(f)
+            unfold_guards(f)
     ast.fix_missing_locations(tree)
     return tree
